@@ -397,7 +397,10 @@ func runC08(c *Ctx) {
 		}
 	}
 	// ---- requirements of helpers: param -> dimension, discovered from their own sites
-	type req struct{ param int; dim string }
+	type req struct {
+		param int
+		dim   string
+	}
 	reqs := map[*FuncInfo][]req{}
 	panicPre := map[*FuncInfo][]req{}
 	isExported := func(fi *FuncInfo) bool { return ast.IsExported(fi.Obj.Name()) }
